@@ -1,6 +1,6 @@
 """C04 — the document is the tree its API describes, after every history."""
 import random
-import vlib, histcheck, jsonchecks
+import vlib, histcheck, jsonchecks, chaincheck
 
 # assignments from an aliasing source (the source is the destination itself, inside it, or around it):
 # scripted, one process each because the library may crash on them
@@ -65,7 +65,14 @@ def check(run):
                 run.known(kid, known[kid]["text"])
             else:
                 oracle_fail.append((cfg, "HRUN 2 0 - " + script, f"{name}: {exp[-1][:200]}", (crash or got[k][0] if got else "crash")[-300:]))
-    run.cov["rule"] = ("random histories (80-120 operations on 2 documents through up to 24 live handles: set of every scalar kind, to<JsonArray/JsonObject>, clear, add, add<JsonVariant>, "
+    # the representation under the tree: arrays/objects as chains of slots (Model/Collection.v, Proofs/CollProofs.v)
+    nchain = chaincheck.run(run, rnd, "C04", [(4, 256, 4), (1, 4, 1), (2, 3, 2), (1, 16, 4), (1, 255, 1)] + ([(1, 5, 3), (2, 128, 4), (1, 2, 2), (4, 7, 1)] if thorough else []),
+                            400 if thorough else 60)
+    run.cov["disagreements_checked"] += nchain
+    run.cov["rule"] = ("[chains] %d add/insert-beyond-end/remove/member add/member remove/clear/shrinkToFit histories of one array or one object with allocator failures at "
+                       "chosen calls: after every operation the chain of slot ids read from the library's own links and the number of allocator calls must equal "
+                       "Model/Collection.v's, and must obey the list laws proved in CollProofs (append fresh, remove closes the gap, whole pairs, no duplicates, ids < NULL_SLOT); " % nchain)
+    run.cov["rule"] += ("random histories (80-120 operations on 2 documents through up to 24 live handles: set of every scalar kind, to<JsonArray/JsonObject>, clear, add, add<JsonVariant>, "
                        "operator[] read/create/assign incl. insertion beyond the end, remove by index/key, assignment between unrelated values of the same or the other document, "
                        "document clear/copy/swap/shrinkToFit, deserializeJson into a document or a nested value incl. malformed texts), generated by the extracted tree model "
                        "(which tracks which handles are alive); after EVERY operation the return value, the dump of every document and of every live handle must equal the tree "
@@ -80,6 +87,8 @@ def replay(rp):
     m = vlib.need_model()
     h = vlib.need_harness("hist_h", cfg, rp.get("defines"))
     bad = 0
+    if any(l.startswith("ARUN") for l in rp.get("lines", [])):
+        return chaincheck.replay(rp)
     for l in rp.get("lines", []):
         parts = l.split(" ", 4)
         mo, _ = vlib.run_lines(m, ["CFG " + cfg, "HEXP " + parts[1] + " " + parts[4]])
